@@ -18,7 +18,7 @@ import (
 	"fmt"
 	"go/constant"
 	"go/token"
-	"sort"
+	"path/filepath"
 	"strings"
 
 	"golang.org/x/tools/go/ssa"
@@ -28,10 +28,11 @@ func init() { register("C07", runC07) }
 
 func runC07(c *Ctx) {
 	c.Rule("A1 ALPH header vs payload (S7 symbolic execution of lossy.encodeAlphaInternal over all classes of method/filter/fallback): the header byte is constant in each class; its method bits are 1 exactly when the payload is the lossless encoder's output, its filter bits are 0 exactly when the payload is the unfiltered plane and otherwise equal the filter code under which the filtered buffer was produced")
-	c.Rule("A2 filter pairing: for each filter code the encoder's switch selects alphaFilter<K> and the decoder's switch selects alphaUnfilter<K> with the same <K>")
+	c.Rule("A2 filter pairing: for each filter code 1..3 exactly one forward filter (func([]byte,int,int,[]byte)) and one inverse filter (func([]byte,int,int)) of package lossy is called under an equality test with that code; K4 decides that the two are inverse to each other")
 	c.Rule("A3 quantisation gate: every call of the level quantiser on the alpha plane is control-dependent on a comparison of the alpha quality with 100; resolveAlphaQuality maps the negative sentinel to 100")
 	c.Rule("I1 index form (as C19) for imageHasAlpha and extractAlphaWith")
-	c.NotCovered("that each filter and its inverse are exact inverses value by value; exactness of the lossless coder used for the plane (C01); the number of levels kept by quantisation")
+	c.Rule("K4 alpha filters (S8 kernel evaluator, 5x4 plane, all sample values): the inverse filter dispatched on filter value k has, cell for cell, the normal form of the independent implementation's inverse filter k (golang.org/x/image/webp, ref/ximage_kernels.json), and the forward filter dispatched on k followed by that inverse is the identity; functions are found by signature and by the constant they are dispatched on, not by name")
+	c.NotCovered("the filters on planes of other sizes than 5x4 (the loops are uniform in the cell classes first cell / first row / first column / interior, but that uniformity is not proven); exactness of the lossless coder used for the plane (C01); the number of levels kept by quantisation")
 	for i, cf := range c.configsFor() {
 		p := c.load(cf[0], cf[1])
 		if p == nil {
@@ -41,6 +42,12 @@ func runC07(c *Ctx) {
 			alphHeaderRule(c, p, "A1-alph-header")
 		}
 		c07Pairing(c, p)
+		if kref, err := loadKernRef(filepath.Join(c.Verif, "ref", "ximage_kernels.json")); err != nil {
+			c.Fail("internal", "ref/ximage_kernels.json", "", "cannot read the reference kernels: "+err.Error())
+		} else {
+			c.Table("ref/ximage_kernels.json")
+			kernelAlphaFilters(c, p, kref)
+		}
 		c07Gate(c, p)
 		c19Analyse(c, p)
 	}
@@ -213,32 +220,23 @@ func switchCallees(fn *ssa.Function, prefix string) map[int64]string {
 }
 
 func c07Pairing(c *Ctx, p *Program) {
-	enc := p.Fn("internal/lossy", "encodeAlphaInternal")
-	dec := p.Fn("internal/lossy", "DecodeAlpha")
-	if enc == nil || dec == nil {
-		c.AnchorMissing("A2-filter-pairing", "lossy.encodeAlphaInternal / DecodeAlpha")
+	pk := p.SSAPkg("internal/lossy")
+	if pk == nil {
+		c.AnchorMissing("A2-filter-pairing", "package internal/lossy")
 		return
 	}
-	c.Func(FnName(dec))
-	e := switchCallees(enc, "alphaFilter")
-	d := switchCallees(dec, "alphaUnfilter")
-	var codes []int64
-	for k := range e {
-		codes = append(codes, k)
+	// found by signature and by the constant they are dispatched on (anywhere in the package), so that
+	// moving the switch into a helper or renaming the functions changes nothing
+	unf := dispatchTable(p, pk, func(f *ssa.Function) bool { return f.Pkg == pk && sigIs(f, "[]byte", "int", "int") })
+	fwd := dispatchTable(p, pk, func(f *ssa.Function) bool { return f.Pkg == pk && sigIs(f, "[]byte", "int", "int", "[]byte") })
+	n := 0
+	for k := int64(1); k <= 3; k++ {
+		u, f := unf[k], fwd[k]
+		n++
+		c.Check(u != nil && f != nil, "A2-filter-pairing", fmt.Sprintf("filter-code-%d", k), "", fmt.Sprintf("code %d: encoder %v / decoder %v (their composition is checked by K4)", k, f, u),
+			fmt.Sprintf("for filter code %d the package does not dispatch to exactly one forward filter (%v) and one inverse filter (%v)", k, f, u))
 	}
-	for k := range d {
-		if _, ok := e[k]; !ok {
-			codes = append(codes, k)
-		}
-	}
-	sort.Slice(codes, func(i, j int) bool { return codes[i] < codes[j] })
-	for _, k := range codes {
-		en, dn := e[k], d[k]
-		ok := en != "" && dn != "" && strings.TrimPrefix(en, "alphaFilter") == strings.TrimPrefix(dn, "alphaUnfilter")
-		c.Check(ok, "A2-filter-pairing", fmt.Sprintf("filter-code-%d", k), p.Pos(dec.Pos()), fmt.Sprintf("code %d: %s / %s", k, en, dn),
-			fmt.Sprintf("for filter code %d the encoder applies %q but the decoder undoes it with %q: the decoded alpha is not the source alpha", k, en, dn))
-	}
-	c.Floor("A2-filter-pairing", len(codes), 3)
+	c.Floor("A2-filter-pairing", n, 3)
 }
 
 func c07Gate(c *Ctx, p *Program) {
